@@ -530,12 +530,14 @@ def execute_reenter(program, ctx, mode):
         ctx.probe('cache-dict-owners-checked', len(leaves))
         del leaves
         ctx.log(ctx.step, flav, entry, point, action, cache_state, fired[0], norm(got) if exc_name is None else 'raise:' + exc_name, norm(again))
-        return S, B, (R0, R1, R2, P0, ob, K)
+        def rearm():
+            armed[0] = True
+        return S, B, (R0, R1, R2, P0, ob, K, rearm)
 
     def refbalance(case):
         """reference counts of the operands must not drift over repetitions of a warm call and of a failing call"""
         S, B, operands = run_case(dict(case, action='relookup_other'))
-        R0, R1, R2, P0, ob, K = operands
+        R0, R1, R2, P0, ob, K, _rearm = operands
         entry = case['entry']
 
         def call():
@@ -594,6 +596,55 @@ def execute_reenter(program, ctx, mode):
                     entry, 'underflow' if sys.getrefcount(r) < rc_res + 1 else 'leak'),
                     {'case': case, 'before': rc_res, 'after': sys.getrefcount(r)})
 
+    def refbalance_failing_callback(case):
+        """the same for lookups that leave through the error path: the overridden uncached method raises, over and over,
+        each time from cold caches; nothing the call took a reference to may stay referenced"""
+        for pt in ('uncached_before', 'uncached_after'):
+            S, B, operands = run_case(dict(case, point=pt, action='raise', cache='cold'))
+            R0, R1, R2, P0, ob, K, rearm = operands
+            entry = case['entry']
+
+            def call():
+                if entry == 'queryAdapter':
+                    return S.queryAdapter(ob, P0, '', 'dflt')
+                if entry == 'adapter_hook':
+                    return S.adapter_hook(P0, ob, '', 'dflt')
+                if entry == 'queryMultiAdapter':
+                    return S.queryMultiAdapter((ob,), P0, '', 'dflt')
+                if entry == 'subscribers':
+                    return S.subscribers((ob,), P0)
+                if entry == 'lookup':
+                    return S.lookup((R1,), P0, '', 'dflt')
+                if entry == 'lookup1':
+                    return S.lookup1(R1, P0, '', 'dflt')
+                if entry == 'lookupAll':
+                    return S.lookupAll((R1,), P0)
+                if entry == 'names':
+                    return S.names((R1,), P0)
+                return S.subscriptions((R1,), P0)
+
+            def failing_round():
+                S.changed(S)             # cold caches again
+                rearm()
+                try:
+                    call()
+                except Injected:
+                    return True
+                return False
+            watched = [R1, P0, ob, S]
+            raised = failing_round() and failing_round()
+            if not raised:
+                continue                # this entry point does not reach that callback
+            before = [sys.getrefcount(x) for x in watched]
+            for _ in range(25):
+                failing_round()
+            after = [sys.getrefcount(x) for x in watched]
+            ctx.probe('refbalance-error-path-checked')
+            for nm, b_, a_ in zip(('required', 'provided', 'object', 'registry'), before, after):
+                if a_ != b_:
+                    ctx.violation('C11', 'refleak', 'C11|reference-balance|error-path|%s|%s|%s' % (entry, nm, 'leak' if a_ > b_ else 'underflow'),
+                                  {'case': case, 'point': pt, 'before': b_, 'after': a_})
+
     seen_rb = set()
     for step, case in enumerate(program['ops']):
         ctx.step = step
@@ -603,6 +654,7 @@ def execute_reenter(program, ctx, mode):
         if key not in seen_rb:
             seen_rb.add(key)
             refbalance(case)
+            refbalance_failing_callback(case)
 
 
 # --------------------------------------------------------------------------
